@@ -220,6 +220,17 @@ func runC05(ctx *core.Ctx, idx int) *core.Result {
 			srcs = append(srcs, string(b))
 			names = append(names, p[strings.Index(p, "/src/")+1:])
 		}
+		if idx%9 < 2 {
+			// a pattern abstracted from a fragment of the first file itself (it has at least that instance)
+			g := gen.NewG(r)
+			kind := []string{"expr", "stmts", "decl"}[(idx/9)%3]
+			if fr := g.CorpusFragment(kind, []byte(srcs[0])); fr != "" {
+				if ac := g.AbstractFrom(kind, fr); ac != nil {
+					c = ac
+					res.Ob("patterns-abstracted-from-the-corpus-file", 1)
+				}
+			}
+		}
 	} else {
 		g := gen.NewG(r)
 		g.Comment = true
